@@ -10,6 +10,8 @@ Inductive mcase :=
 | KFrames (input : bytes) (ok : bool) (frames : list (N * bytes))
 | KSkip (input : bytes) (ok : bool) (consumed : N)
 | KJson (c : cav) (ok : bool) (out : bytes)                 (* msgpack of the caveat after a JSON round trip *)
+| KFramesHostile (input : bytes) (ok : bool) (frames : list (N * bytes))   (* DecodeCaveats on a damaged input: the library may refuse more
+                                                                              than the frame level can see (typed bodies), never less *)
 | KJTypeRead (s : string) (t : N)                           (* caveat type obtained from the JSON "type" field s *)
 | KJTypePrint (t : N) (out : string).                       (* the "type" field written for a caveat of type t *)
 
@@ -29,6 +31,9 @@ Definition model_out (k : mcase) : list Z :=
                    | Some rest => [1%Z; Z.of_nat (List.length i - List.length rest)]
                    | None => [0%Z] end
   | KJson c _ _ => match json_rt c with Some c' => zo (enc_one c') | None => [0%Z] end
+  | KFramesHostile i ok _ => match dec_frames_len i with
+                             | Some fs => if ok then 1%Z :: Z.of_nat (List.length fs) :: map (fun f => Z.of_N (fst f)) fs else [0%Z]
+                             | None => [0%Z] end
   | KJTypeRead s _ => [Z.of_N (type_from_json all_reg f_cav_unregistered s)]
   | KJTypePrint t _ => zs (str_bytes (type_to_json all_reg f_cav_min_user_defined t))
   end.
@@ -37,6 +42,7 @@ Definition obs_out (k : mcase) : list Z :=
   match k with
   | KEnc _ ok o | KEncSet _ ok o | KEncTok _ _ _ _ _ _ _ ok o | KJson _ ok o => if ok then 1%Z :: zs o else [0%Z]
   | KFrames _ ok fs => if ok then 1%Z :: Z.of_nat (List.length fs) :: flat_map (fun f => Z.of_N (fst f) :: zs (snd f)) fs else [0%Z]
+  | KFramesHostile _ ok fs => if ok then 1%Z :: Z.of_nat (List.length fs) :: map (fun f => Z.of_N (fst f)) fs else [0%Z]   (* types only: a lenient body re-encodes differently *)
   | KSkip _ ok n => if ok then [1%Z; Z.of_N n] else [0%Z]
   | KJTypeRead _ t => [Z.of_N t]
   | KJTypePrint _ o => zs (str_bytes o)
